@@ -354,6 +354,7 @@ func c16Run(r *ev.Run, s c16Session, record bool) (msgs []e2e.Msg) {
 		}
 	}
 	silentUndetected := false
+	reportsConnected := false
 	var settle func(depth int) bool
 	settle = func(depth int) bool {
 		// a server that does not wait for acknowledgements returns from a transaction while its notification (and the cut it
@@ -395,7 +396,12 @@ func c16Run(r *ev.Run, s c16Session, record bool) (msgs []e2e.Msg) {
 					} else {
 						if s.Outage {
 							// every attempt made meanwhile is refused; the attempts made after the outage get the full timeout again
-							time.Sleep(3 * c16OutageTimeout)
+							time.Sleep(c16OutageTimeout)
+							// the connection has been gone for a whole reconnect timeout and every attempt is refused
+							if c.Connected() {
+								reportsConnected = true
+							}
+							time.Sleep(2 * c16OutageTimeout)
 							r.Add("outages_longer_than_the_reconnect_timeout", 1)
 						}
 						px.SetAccept(true)
@@ -565,6 +571,9 @@ func c16Run(r *ev.Run, s c16Session, record bool) (msgs []e2e.Msg) {
 	}
 	db := env.Sys.State()
 	r.Add("sessions_completed", 1)
+	if reportsConnected {
+		r.Violation("c16.reports-connected-during-outage."+feature, fmt.Sprintf("[%s] a whole reconnect timeout after the connection was cut, with the peer refusing every new connection, Connected() still answers true (the cache is not following the database)", s), cse("Connected() during the outage"))
+	}
 	if d := c01Compare(ref, e2e.CacheState(ref, c), db, monitored); d != "" {
 		r.Violation("c16.cache-differs."+feature, fmt.Sprintf("[%s] after the session the cache differs from the database:\n%s", s, d), cse(d))
 	}
